@@ -951,25 +951,27 @@ multi_batch!(c01_init_and_shares_chunks_k3_b2, c01_garbler_chunks_k3_b2, 3, 2, 6
 
 /// C07 - a garbler reveals exactly one label per input wire: label_0 ^ (masked bit * delta),
 /// nothing for registers without a masked input; in particular never both labels of a wire
-/// (their XOR is the global key) and never delta itself.
+/// (their XOR is the global key) and never delta itself. The garbler holds one zero-label per
+/// Input instruction (here two, registers 0 and 1 of three); a masked-input claim for register 2
+/// - any peer can announce one - yields an error: neither a label nor (C08) a panic.
 #[kani::proof]
 #[kani::unwind(6)]
 #[kani::stub(std::fmt::format, no_format)]
 fn c07_ip_labels_one_label_per_wire() {
     let delta: u128 = kani::any();
-    let l: [u128; 3] = [kani::any(), kani::any(), kani::any()];
+    let l: [u128; 2] = [kani::any(), kani::any()];
     let m = [any_opt_bool(), any_opt_bool(), any_opt_bool()];
-    let labels = [Label(l[0]), Label(l[1]), Label(l[2])];
+    let labels = [Label(l[0]), Label(l[1])];
     let ch = NoChan;
     let circ = Circuit { input_regs: vec![1, 1], insts: vec![], max_reg_count: 3, output_regs: vec![Reg(0)], and_ops: 0 };
     let ctx = mk_ctx(&ch, &circ, &NO_INPUTS, 0, 1, &NO_PARTIES);
     let r = seg_ip_labels(&ctx, Delta(delta), &labels, vec![m[0], m[1], m[2]]);
     let ok = r.is_ok();
-    assert!(ok, "C07:labels:returns-Ok");
+    assert!(ok == m[2].is_none(), "C07:labels:a-claim-for-a-register-that-is-not-an-input-wire-is-refused-and-only-that");
     if let Ok(v) = &r {
         assert!(v.len() == 3, "C07:labels:one-slot-per-register");
         let mut w = 0;
-        while w < 3 {
+        while w < 2 {
             if v.len() == 3 {
                 match (m[w], v[w]) {
                     (None, None) => {}
@@ -983,8 +985,10 @@ fn c07_ip_labels_one_label_per_wire() {
             }
             w += 1;
         }
+        assert!(v.len() != 3 || v[2].is_none(), "C07:labels:nothing-is-sent-for-a-register-that-is-not-an-input-wire");
     }
     kani::cover!(ok && m[0] == Some(true) && m[1].is_none(), "labels_nontrivial_reachable");
+    kani::cover!(!ok, "claim_for_non_input_register_reachable");
     std::mem::forget(r);
 }
 
